@@ -539,6 +539,80 @@ func genEngSizes(r *vh.Rand) string {
 	return line
 }
 
+// genEngRedir: targets that answer with redirects, mostly with the gun option `redirect: true` (opts prefix r1).
+// A redirect step answers <status> with a Location that points at a step of the same target - itself (a loop), an
+// earlier one (a cycle), a later one (a chain that ends in whatever that step does: any status, close, reset, garbage,
+// short body), one that does not exist - relative or absolute, or at its own unchanged URI, or carries no / an
+// unparsable / a dead Location. The other steps are ordinary ones. All four http-family guns.
+func genEngRedir(r *vh.Rand) string {
+	gun := r.Pick([]string{"http", "http", "http", "scenario", "scenario", "scenario", "http2", "connect"})
+	n := r.Range(2, 6)
+	inst, iters := r.Range(1, 2), 1
+	if gun == "scenario" {
+		iters = r.Range(1, 2)
+	}
+	ka := vh.B(r.Chance(2, 3))
+	mode := r.PickInt([]int{0, 0, 0, 0, 0, 0, 0, 0, 0, 1})
+	if gun == "http2" || gun == "connect" {
+		inst, ka = 1, "0"
+	}
+	line := fmt.Sprintf("eng %s %s %d %d r%s%s %d %d", gun, ka, inst, mode, vh.B(r.Chance(5, 6)), genOpts(r), iters, n)
+	nred := r.Range(1, 3)
+	isRed := make([]bool, n)
+	for i := 0; i < nred; i++ {
+		isRed[r.Intn(n)] = true
+	}
+	for i := 0; i < n; i++ {
+		if !isRed[i] {
+			if gun == "http" || gun == "scenario" {
+				line += " " + fastStep(r, gun == "scenario")
+			} else {
+				status := r.PickInt([]int{200, 200, 204, 404, 503})
+				body := "ok"
+				if status == 204 {
+					body = ""
+				}
+				line += fmt.Sprintf(" status ok %d 1 %s - - - -", status, vh.HexS(body))
+			}
+			continue
+		}
+		status := r.PickInt([]int{301, 302, 302, 302, 303, 307, 308, 302, 307, 301, 300, 305})
+		var kind string
+		switch k := r.Intn(20); {
+		case k < 6:
+			kind = fmt.Sprintf("s%d", i) // itself
+		case k < 12:
+			kind = fmt.Sprintf("s%d", r.Intn(n+1)) // any step, or one past the last (answers 200)
+		case k < 14:
+			kind = "p"
+		case k < 16 && gun != "connect":
+			kind = fmt.Sprintf("a%d", r.Intn(n))
+		case k < 17:
+			kind = "n"
+		case k < 18:
+			kind = "b"
+		case k < 19 && gun != "connect":
+			kind = "d"
+		default:
+			kind = fmt.Sprintf("s%d", (i+n-1)%n) // the step before (with a neighbour pointing forward: a cycle)
+		}
+		body := r.Pick([]string{"", "moved", htmlOK})
+		tok, pp := "", "-"
+		if gun == "scenario" {
+			switch r.Intn(5) {
+			case 0:
+				tok, pp = r.Pick(tokVals[1:10]), "h:-"
+			case 1:
+				pp = "j:" + vh.B(false)
+			case 2:
+				pp = fmt.Sprintf("a:%d:%s", r.PickInt([]int{0, 200, status}), vh.HexS("ok"))
+			}
+		}
+		line += fmt.Sprintf(" redir:%d:%s ok %d 1 %s %s %s - -", status, kind, status, vh.HexS(body), vh.HexS(tok), pp)
+	}
+	return line
+}
+
 func gen(r *vh.Rand, tier string) []string {
 	thorough := tier == "thorough"
 	nUnit, nEng := 400, 60
@@ -568,6 +642,10 @@ func gen(r *vh.Rand, tier string) []string {
 	// more tunnel-endpoint runs (appended last so that the cases above keep their place in the random stream)
 	for i := 0; i < nEng/10; i++ {
 		out = append(out, genEngConnect(r))
+	}
+	// redirecting targets (appended after everything else, same reason)
+	for i := 0; i < nEng/2; i++ {
+		out = append(out, genEngRedir(r))
 	}
 	return out
 }
